@@ -21,7 +21,7 @@ def family(wl):
     return re.split(r"[<]", wl)[0]
 
 
-def campaign(ev, bins, jobs, tag):
+def campaign(ev, bins, jobs, tag, env=None):
     """jobs: list of (mode, flavour 'C'|'F', topo).  Returns (trace path, rejects [(g, reason)])."""
     make(*([cbin(b) for b in bins] + [fbin(b) for b in bins]))
     alljobs = []
@@ -35,7 +35,7 @@ def campaign(ev, bins, jobs, tag):
         if os.path.exists(out):
             os.remove(out)
         binp = cbin(b) if fl == "C" else fbin(b)
-        rc, o, dt = conc.run_harness(binp, [out, ev.seed * 1000 + k, tier(), mode], topo=topo, timeout=(600 if tier() == 'thorough' else 240))
+        rc, o, dt = conc.run_harness(binp, [out, ev.seed * 1000 + k, tier(), mode], topo=topo, timeout=(600 if tier() == 'thorough' else 240), env=env)
         return j, out, rc, o
     with cf.ThreadPoolExecutor(max_workers=8) as ex:
         results = list(ex.map(job, list(enumerate(alljobs))))
@@ -90,7 +90,8 @@ def report(ev, vd, tr, res, hangs, mine):
         reason = (info or "").strip('"')
         rs, exn = conc.context(tr, g)
         prop = CLASS.get(reason, "C01")
-        if prop != mine:
+        mine_set = mine if isinstance(mine, (set, frozenset, list, tuple)) else {mine}
+        if prop not in mine_set and reason not in mine_set:
             other[prop + ":" + reason] = other.get(prop + ":" + reason, 0) + 1
             continue
         rejected_execs += 1
